@@ -7,7 +7,7 @@ import tomllib
 
 from . import rustlex as rl
 from .edits import Edit, apply_edits, revert
-from .rewrites import apply_rewrites, check_reversible, Unsupported, EXEC_TOUCHING
+from .rewrites import apply_rewrites, check_reversible, Unsupported, EXEC_TOUCHING, unfold_combinator
 import copy
 from .splice import parse_clauses, splice_fn, FnShape, AnchorLost, ClauseError, Clause
 
@@ -130,7 +130,7 @@ class BuiltUnit:
     pass
 
 
-def build_unit(unit_dir, out_path, mutate=None, neg_control=False, bodies=None, drop_clauses=None, extra_items=None):
+def build_unit(unit_dir, out_path, mutate=None, neg_control=False, bodies=None, drop_clauses=None, extra_items=None, unfold=None):
     """Generate the Verus file for a unit. `mutate` = optional function (fnpath, text) -> text applied
     to the *extracted slice in memory* (teeth); `neg_control` appends `ensures false` everywhere.
     Returns BuiltUnit with maps for diagnostics."""
@@ -277,11 +277,47 @@ def build_unit(unit_dir, out_path, mutate=None, neg_control=False, bodies=None, 
             t1, steps, log = apply_rewrites(text, p.opts["rewrites"], p.opts)
         except (Unsupported, rl.ScanError) as e:
             raise Undecided("%s: %s: rewrite: %s" % (uid, p.label, e))
+        removed_closures = []
+        if unfold and p.is_fn and not p.stub and p.fnpath in unfold:
+            # repair only (R21): unfold the combinators whose closure Verus rejected, back to front so that the
+            # reported offsets (positions in the previous build's rewritten text) stay valid
+            for off, variant in sorted(unfold[p.fnpath], reverse=True):
+                try:
+                    ueds, bar = unfold_combinator(t1, off, variant)
+                    shu = FnShape(t1)
+                    k = [c["open"] for c in shu.closures].index(bar) + 1 if bar in [c["open"] for c in shu.closures] else None
+                except (Unsupported, rl.ScanError, AnchorLost, ValueError) as e:
+                    raise Undecided("%s: %s: rewrite: %s" % (uid, p.label, e))
+                new_t, segs_u = apply_edits(t1, ueds)
+                lo_, hi_ = min(e.start for e in ueds), max(e.end for e in ueds)
+                log.append({"rewrite": "R21", "before": t1[lo_:hi_][:400],
+                            "edits": [{"at": e.start, "del": t1[e.start:e.end], "ins": e.new} for e in ueds]})
+                steps.append(("R21", t1, segs_u, new_t))
+                t1 = new_t
+                if k is not None:
+                    removed_closures.append(k)
         if not check_reversible(text, t1, steps):
             raise Undecided("%s: %s: rewrite reversal self-check failed" % (uid, p.label))
         p.t1, p.rw_steps, p.rw_log = t1, steps, log
         eds = []
         fs = spec_by_path.get(p.fnpath) if p.fnpath else None
+        if fs is not None and removed_closures:
+            # the unfolded closure is gone: its annotations are lost, later closures move up
+            fs = copy.copy(fs)
+            cl2, gone = [], []
+            for c in fs.clauses:
+                if c.kind in ("closure_ptype", "closure_sig"):
+                    n = c.args["n"]
+                    if n in removed_closures:
+                        gone.append(c)
+                        continue
+                    sh_ = sum(1 for k in removed_closures if k < n)
+                    if sh_:
+                        c = copy.copy(c)
+                        c.args = dict(c.args, n=n - sh_)
+                cl2.append(c)
+            fs.clauses = cl2
+            p.unfolded_clauses = [(c.full_id, c.tags) for c in gone if c.kind == "closure_sig"]
         if p.kind in ("fn", "trait_fn"):
             try:
                 sh = FnShape(t1)
